@@ -105,7 +105,9 @@ for _k in [k for k in B._BIN_OPS if k[0] in (ops.and_, ops.or_, ops.xor)]:
 def _norm(x, L, default):
     if x is None:
         return default
-    if not isinstance(x, B.SymbolicInt):
+    with NoTracing():
+        concrete = not isinstance(x, B.SymbolicInt)
+    if concrete:
         return x
     if x < 0:
         x = x + L
@@ -121,8 +123,10 @@ def _wrap_getitem(cls):
     orig = cls.__getitem__
 
     def __getitem__(self, i):
-        if isinstance(i, slice) and i.step is None and (
-                isinstance(i.start, B.SymbolicInt) or isinstance(i.stop, B.SymbolicInt)):
+        with NoTracing():       # isinstance() is patched under tracing (symbolic ints answer as `int`)
+            sym = isinstance(i, slice) and i.step is None and (
+                isinstance(i.start, B.SymbolicInt) or isinstance(i.stop, B.SymbolicInt))
+        if sym:
             STATS["p2"] += 1
             L = len(self)
             i = slice(_norm(i.start, L, 0), _norm(i.stop, L, L))
